@@ -86,8 +86,21 @@ def api_get(ctx, n):
             ctx.fail("oracle", "get(start,end) != samples with start<=t<=end", inp, impl=ns_arr(r.t), expected=[ts[i] * sc for i in exp])
         if cls and len(r) and [int(v) - 1 for v in np.asarray(r.values).reshape(len(r), -1)[:, 0]] != exp:
             ctx.fail("oracle", "get(start,end) rows", inp)
-        if len(r) and iset_ns(r.time_support) != iset_ns(full):   # an empty result has the empty support (library-wide rule, cf. C03)
-            ctx.fail("oracle", "get changed the time support", inp, impl=iset_ns(r.time_support))
+        if iset_ns(r.time_support) != iset_ns(full):
+            # open finding C08-get-empty-window-support: a result without samples gets the EMPTY support (library-wide rule for empty objects)
+            ctx.fail("oracle", "get changed the time support", inp, impl=iset_ns(r.time_support),
+                     finding_ctx=dict(op="get", empty_result=len(r) == 0, result_support_empty=iset_ns(r.time_support) == ([], [])))
+        # the same window on a series holding ONE instant (one sample, or duplicates of it) built WITHOUT a time support
+        if k % 7 == 0:
+            t1 = ts[len(ts) // 2]; m1 = 1 + k % 3
+            y = nap.Ts(farr([t1] * m1, sc)) if cls == 0 else nap.Tsd(farr([t1] * m1, sc), np.arange(m1) + 1.0)
+            ry = y.get(a * sc / f, b * sc / f, time_units=unit)
+            want = m1 if a <= t1 <= b else 0
+            ctx.count("get:one-instant-default-support")
+            if len(ry) != want:
+                ctx.fail("oracle", "get(start,end) on a one-instant series without time support: %d samples, expected %d" % (len(ry), want),
+                         dict(inp, one_instant=[t1] * m1), impl=ns_arr(ry.t),
+                         finding_ctx=dict(op="get", one_instant_default_support=True, own_support_empty=iset_ns(y.time_support) == ([], []), lost_all=len(ry) == 0))
         sl = x.get_slice(a * sc / f, b * sc / f, time_unit=unit)
         if ns_arr(x[sl].t) != ns_arr(r.t):
             ctx.fail("oracle", "x[get_slice(a,b)] != get(a,b)", inp)
@@ -169,6 +182,21 @@ def trials(ctx, n):
                 got = [[None if (np.isnan(v) if np.isnan(pad) else v == pad) else int(v) for v in row] for row in np.asarray(tc, dtype=float)]
                 if cells != got:
                     ctx.fail("corr", "trial_count cells != model trialCount", dict(inp, bin=b), impl=got, model=cells)
+            # the same timestamps on a NARROW support ([first, last], and with a gap in the middle): trials start before it, run past
+            # it or span the gap - the rows are still count(bin, ep) cut per trial, bins anchored at the trial starts
+            d2 = sorted(set(ts))
+            if len(d2) >= 2:
+                narrow = [iset([d2[0]], [d2[-1]], 10**9)]
+                if len(d2) >= 4:
+                    narrow.append(iset([d2[0], d2[2]], [d2[1], d2[-1]], 10**9))
+                for sup2 in narrow:
+                    x2 = nap.Ts(farr(ts, 10**9), time_support=sup2)
+                    if len(x2) != len(ts):
+                        continue
+                    tc2 = x2.trial_count(ep, float(b), align=align, padding_value=pad)
+                    if not eq(np.asarray(tc2, dtype=float), np.asarray(tc, dtype=float)):
+                        ctx.fail("oracle", "trial_count of the same timestamps on a narrower time support differs", dict(inp, bin=b, support=iset_ns(sup2)),
+                                 impl=np.asarray(tc2, dtype=float).tolist(), expected=np.asarray(tc, dtype=float).tolist())
             g = nap.TsGroup({3: x, 8: nap.Ts(farr(ts[::2], 10**9), time_support=full)}, time_support=full)
             tg = g.trial_count(ep, float(b), align=align, padding_value=pad)
             m8 = g[8].trial_count(ep, float(b), align=align, padding_value=pad)
@@ -198,5 +226,5 @@ def run(ctx):
 
 
 def replay(ctx, rec):
-    print("re-run `./check C08 quick` with VERIF_SEED=%s; failing input: %s" % (rec.get("seed"), rec.get("input")))
-    return False
+    print("re-executing the recorded run of `./check C08 quick` with VERIF_SEED=%s; failing input: %s" % (rec.get("seed"), rec.get("input")))
+    return None
